@@ -54,9 +54,12 @@ def _check(spec, be):
     import pandera as pa
 
     op, args = spec[0], spec[1:]
+    opts = {}
+    if args and isinstance(args[-1], dict):  # check options (n_failure_cases, raise_warning, ...)
+        opts, args = dict(args[-1]), args[:-1]
     C = pa.Check
     if op in ("gt", "ge", "lt", "le", "ne", "eq"):
-        return getattr(C, op)(args[0])
+        return getattr(C, op)(args[0], **opts)
     if op == "isin":
         return C.isin(list(args[0]))
     if op == "in_range":
@@ -116,6 +119,7 @@ def build_schema(spec, coerce_off=()):
             cols, checks=[_check(k, be) for k in spec.get("checks", [])], index=index,
             coerce=spec.get("coerce", False), strict=spec.get("strict", False), ordered=spec.get("ordered", False),
             unique=spec.get("unique"), add_missing_columns=spec.get("add_missing", False), name=spec.get("name"),
+            drop_invalid_rows=spec.get("drop", False),
         )
     import pandera.polars as pap
 
